@@ -28,6 +28,9 @@ func (p *Prog) constStr(pkgShort, name string) (string, bool) {
 func checkC39(p *Prog, r *Report) {
 	r.Explanation = "Ordering clauses of configuration layering (E10 table agreement + path rules). (1) the list built by defaultConfigFiles / defaultGlobalConfigFiles is, in this order: the machine file, XDG config dirs, the user file, XDG config home, then under the repo root .plzconfig, .plzconfig_<arch>, .plzconfig.local (lowest to highest priority, as documented). (2) in ReadConfigFiles and ReadConfigFilesOnly every iteration over the file list reads the base file and then reaches the loop over profiles, which reads <file>.<profile> — nothing (such as the base file being absent) lets an iteration skip its profiles. (3) a missing file is not an error (the not-exist edge of readConfigFileOnly returns nil). (4) slice defaults are applied after all files were read and only when the option is still empty: every setDefault/setBuildPath call follows the file loop, setDefault assigns only on the len==0 edge, and setBuildPath assigns only through setDefault. (5) command-line overrides are applied after the files: ApplyOverrides is dominated by a successful ReadDefaultConfigFiles. gcfg's accumulate / blank-clears semantics live in a third-party library and are not decided."
 	r.NotCovered = []string{"gcfg's handling of repeated and blank values", "what ApplyOverrides does to list options (reflection)", "plugin config merging"}
+	p.sliceDefaultsNotPreset(r, "E5.defaults-after-files")
+	p.profileOrderKept(r)
+	p.unmarshalAlwaysAssigns(r)
 	dcf := p.Fn("core", "defaultConfigFiles")
 	dgf := p.Fn("core", "defaultGlobalConfigFiles")
 	rcf := p.Fn("core", "ReadConfigFiles")
@@ -320,5 +323,191 @@ func checkC39(p *Prog, r *Report) {
 		if n == 0 {
 			r.unresolved(rule, "ApplyOverrides call in package main")
 		}
+	}
+}
+
+// sliceDefaultsNotPreset: gcfg appends to slice-valued options, which is why their defaults are applied by setDefault after
+// all files were read, and only when the option is still empty. DefaultConfiguration must therefore leave those options
+// empty: a default present before reading is added to, not replaced by, what a file configures.
+func (p *Prog) sliceDefaultsNotPreset(r *Report, rule string) {
+	rcf := p.Fn("core", "ReadConfigFiles")
+	dc := p.Fn("core", "DefaultConfiguration")
+	sd := p.Fn("core", "setDefault")
+	if rcf == nil || dc == nil || sd == nil {
+		r.unresolved(rule, "core.ReadConfigFiles / DefaultConfiguration / setDefault")
+		return
+	}
+	late := map[string]bool{}
+	for _, g := range p.closure([]*ssa.Function{rcf}, 1, inRepoPkgs("core")) {
+		for _, ci := range callsInFn(g, sd) {
+			cc := callCommon(ci)
+			if len(cc.Args) > 0 {
+				if k := fieldKey(cc.Args[0]); k != "" {
+					late[k] = true
+				}
+			}
+		}
+	}
+	if len(late) == 0 {
+		r.unresolved(rule, "options defaulted through setDefault in ReadConfigFiles")
+		return
+	}
+	preset := ""
+	eachInstr(dc, false, func(_ *ssa.Function, i ssa.Instruction) {
+		if st, ok := i.(*ssa.Store); ok && late[fieldKey(st.Addr)] && !isNilConst(st.Val) {
+			preset = fieldKey(st.Addr)
+		}
+	})
+	r.check(preset == "", rule, "options defaulted after reading are left empty by DefaultConfiguration", p.pos(dc.Pos()), fnName(dc), itoa(len(late))+" option(s) are defaulted by setDefault after the files; none is pre-set", "DefaultConfiguration pre-sets "+preset+", a slice option whose default is meant to be applied only after reading and only when empty: gcfg appends what a config file says to the pre-set value, so e.g. `hashcheckers = sha256` yields [sha1 sha256 blake3 sha256] and the restriction the repository configured is silently ignored")
+}
+
+// profileOrderKept: several profiles are applied in the order they were asked for (a later one has the last word): the
+// list handed to the readers is built position by position, never through a map or a sort.
+func (p *Prog) profileOrderKept(r *Report) {
+	rule := "E5.profile-after-its-file"
+	n, bad := 0, ""
+	for _, name := range []string{"ReadDefaultConfigFiles", "ReadDefaultConfigFilesOnly"} {
+		fn := p.Fn("core", name)
+		if fn == nil {
+			continue
+		}
+		for _, callee := range []string{"ReadConfigFiles", "ReadConfigFilesOnly"} {
+			g := p.Fn("core", callee)
+			for _, ci := range callsInFn(fn, g) {
+				cc := callCommon(ci)
+				n++
+				arg := cc.Args[len(cc.Args)-1]
+				for x := range backSlice(arg, SliceOpts{}) {
+					switch y := x.(type) {
+					case *ssa.Next:
+						if !y.IsString {
+							bad = "a range over a map"
+						}
+					case *ssa.Call:
+						switch calleeName(&y.Call) {
+						case "slices.Sorted", "slices.Sort", "sort.Strings", "maps.Keys", "slices.SortFunc":
+							bad = calleeName(&y.Call)
+						}
+						// a helper of this package that builds the list: look inside
+						if h := y.Call.StaticCallee(); h != nil && h.Blocks != nil && fnPkg(h) == modPath+"/src/core" {
+							eachInstr(h, false, func(_ *ssa.Function, j ssa.Instruction) {
+								switch z := j.(type) {
+								case *ssa.Range:
+									if _, isMap := z.X.Type().Underlying().(*types.Map); isMap {
+										bad = "a range over a map in " + h.Name()
+									}
+								case *ssa.Call:
+									switch calleeName(&z.Call) {
+									case "slices.Sorted", "slices.Sort", "sort.Strings", "maps.Keys", "slices.SortFunc":
+										bad = calleeName(&z.Call) + " in " + h.Name()
+									}
+								}
+							})
+						}
+					}
+				}
+			}
+		}
+	}
+	if n == 0 {
+		r.unresolved(rule, "calls of ReadConfigFiles(Only) in ReadDefaultConfigFiles(Only)")
+		return
+	}
+	r.check(bad == "", rule, "profiles reach the reader in the order requested", "-", "core.ReadDefaultConfigFiles", itoa(n)+" call(s); the profile list is not rebuilt through a map or a sort", "the list of profiles is rebuilt through "+bad+" before it reaches ReadConfigFiles: --profile zeta --profile alpha is applied as alpha, zeta, so single-valued options take the wrong profile's value and repeated options accumulate in the wrong order")
+}
+
+// unmarshalAlwaysAssigns: gcfg calls UnmarshalText on the field that already holds the lower layers' value. A method that
+// returns nil without assigning (e.g. for an empty string) leaves that value in place, so `httpurl =` in a higher file can
+// no longer switch a URL option off.
+func (p *Prog) unmarshalAlwaysAssigns(r *Report) {
+	rule := "E5.higher-layer-assignment-always-lands"
+	n, nBad := 0, 0
+	for _, fn := range p.Funcs("cli") {
+		if fn.Name() != "UnmarshalFlag" && fn.Name() != "UnmarshalText" {
+			continue
+		}
+		if fn.Signature.Recv() == nil || len(fn.Params) == 0 {
+			continue
+		}
+		if _, isPtr := fn.Signature.Recv().Type().(*types.Pointer); !isPtr {
+			continue
+		}
+		n++
+		recv := fn.Params[0]
+		assigns := func(j ssa.Instruction) bool {
+			switch x := j.(type) {
+			case *ssa.Store:
+				return derivesFromValue(x.Addr, recv)
+			case *ssa.MapUpdate:
+				return derivesFromValue(x.Map, recv)
+			case *ssa.Call:
+				// delegation to another method on the same receiver, or a callee that receives the receiver
+				for _, a := range x.Call.Args {
+					if a == ssa.Value(recv) || derivesFromValue(a, recv) {
+						return true
+					}
+				}
+			}
+			return false
+		}
+		// a field of the receiver that this method writes on some path is written on every successful path: the receiver
+		// still holds what a lower-priority file put there
+		fields := map[string]bool{}
+		eachInstr(fn, false, func(_ *ssa.Function, j ssa.Instruction) {
+			if st, ok := j.(*ssa.Store); ok {
+				if fa, ok := st.Addr.(*ssa.FieldAddr); ok && fa.X == ssa.Value(recv) {
+					fields[fieldKey(fa)] = true
+				}
+			}
+		})
+		for fk := range fields {
+			writes := func(j ssa.Instruction) bool {
+				st, ok := j.(*ssa.Store)
+				if !ok {
+					return false
+				}
+				if fa, ok := st.Addr.(*ssa.FieldAddr); ok && fa.X == ssa.Value(recv) && fieldKey(fa) == fk {
+					return true
+				}
+				return st.Addr == ssa.Value(recv) // whole-value assignment
+			}
+			sticky := false
+			for _, rc := range returnCases(fn, 0) {
+				// a return that surely reports an error gives the value up: gcfg stops at it
+				if _, mk := rc.Vals[0].(*ssa.MakeInterface); mk || isResultOf(rc.Vals[0], "fmt.Errorf", "errors.New") {
+					continue
+				}
+				if known, isNil := errKnown(rc.Facts, []ssa.Value{rc.Vals[0]}); known && !isNil {
+					continue
+				}
+				if existsPath(fn, nil, rc.Ret, writes) {
+					sticky = true
+				}
+			}
+			key := rule + "|" + fnName(fn) + "|field " + fk[strings.LastIndex(fk, ".")+1:]
+			if sticky {
+				nBad++
+				r.add(Obligation{Rule: rule, Instance: fnName(fn) + " writes field " + fk + " on every path", Site: p.pos(fn.Pos()), Func: fnName(fn), Status: "violated", Path: true, Key: key,
+					Detail: "the method sets " + fk + " on some paths only: a value left there by a lower-priority file survives when a higher-priority file gives a value that takes the other path (version = >=16.0.0 below, version = 17.0.0 above: effective >=17.0.0)"})
+			} else {
+				r.add(Obligation{Rule: rule, Instance: fnName(fn) + " writes field " + fk + " on every path", Site: p.pos(fn.Pos()), Func: fnName(fn), Status: "discharged", Path: true, Key: key, Detail: "assigned on every path to a return"})
+			}
+		}
+		for _, rc := range returnCases(fn, 0) {
+			if !isNilConst(rc.Vals[0]) {
+				continue
+			}
+			if existsPath(fn, nil, rc.Ret, assigns) {
+				nBad++
+				r.bad(rule, fnName(fn)+" assigns before returning nil", p.pos(rc.Site), fnName(fn), "the method can return nil without having written to its receiver (e.g. for an empty input): gcfg unmarshals into the field that still holds the value from a lower-priority file, so a higher-priority file cannot reset the option (`httpurl =` in .plzconfig.local no longer disables the shared HTTP cache)")
+			}
+		}
+	}
+	if n == 0 {
+		r.unresolved(rule, "UnmarshalFlag / UnmarshalText methods in package cli")
+		return
+	}
+	if nBad == 0 {
+		r.ok(rule, "every config value type assigns before it reports success", "-", "cli", itoa(n)+" UnmarshalFlag/UnmarshalText methods with pointer receivers, none returns nil without writing the receiver")
 	}
 }
